@@ -281,14 +281,23 @@ void in_run(Rng& rng)
     {
         // shim MPI: rank 0 carries the judging callback, the other ranks a callback that only continues
         struct Go { bool operator()(MPI_Comm, chk_t const&) const { return true; } };
-        VfWorld world;
-        vf_mpi_run(world, P, rng.next(), [&](int rank, MPI_Comm comm) {
-            auto integrand = hep::make_multi_channel_integrand<T>(run_f, dims, map, dims, n);
-            if (rank == 0) hep::mpi_multi_channel(comm, integrand, std::vector<std::size_t>(iters, calls), chk, cb);
-            else hep::mpi_multi_channel(comm, integrand, std::vector<std::size_t>(iters, calls), chk, Go());
-        });
-        if (world.aborted) viol("in-run:mpi-collective-mismatch", J(info).s("reason", world.abort_reason));
+        // the run is done in two MPI calls: the second continues the checkpoint (which already holds results) of the first
+        std::size_t first = rng.range(1, iters - 1);
+        chk_t mid = chk;
+        for (int phase = 0; phase < 2; ++phase)
+        {
+            VfWorld world;
+            std::vector<std::size_t> seg(phase ? iters - first : first, calls);
+            chk_t start = phase ? mid : chk;
+            vf_mpi_run(world, P, rng.next(), [&](int rank, MPI_Comm comm) {
+                auto integrand = hep::make_multi_channel_integrand<T>(run_f, dims, map, dims, n);
+                if (rank == 0) { chk_t r2 = hep::mpi_multi_channel(comm, integrand, seg, start, cb); if (!phase) mid = r2; }
+                else hep::mpi_multi_channel(comm, integrand, seg, start, Go());
+            });
+            if (world.aborted) { viol("in-run:mpi-collective-mismatch", J(info).s("reason", world.abort_reason)); break; }
+        }
         count("mpi_runs");
+        count("mpi_runs_continued_from_a_checkpoint_with_results");
     }
     g_run = 0;
     if (r.iteration != iters) viol("harness:callback-count", J(info).u("seen", r.iteration));
